@@ -1,5 +1,6 @@
 import OapiVerif.Model.Enums
 import OapiVerif.Proofs.EnumClash
+import OapiVerif.Proofs.Itoa
 /-!
 C11 — Enum constants are complete and carry the exact specification values.
 
@@ -138,32 +139,6 @@ theorem C11_sanitize_complete_partial (U : Uni) (names values : List Str) (res :
   rw [hv] at this
   obtain ⟨q, hq, hqp⟩ := List.mem_map.mp this
   rw [← hqp]; exact h2 q hq
-
-theorem itoa_inj (a b : Nat) (h : itoa a = itoa b) : a = b := by
-  unfold itoa at h
-  have hinj : ∀ l₁ l₂ : List Char, l₁.map Char.toNat = l₂.map Char.toNat → l₁ = l₂ := by
-    intro l₁
-    induction l₁ with
-    | nil => intro l₂ h; cases l₂ <;> simp_all
-    | cons x t ih =>
-      intro l₂ h
-      cases l₂ with
-      | nil => simp at h
-      | cons y u =>
-        simp only [List.map_cons, List.cons.injEq] at h
-        have hxy : x = y := by
-          apply Char.ext
-          apply UInt32.toNat_inj.mp
-          exact h.1
-        rw [hxy, ih u h.2]
-  have h1 : (toString a).toList = (toString b).toList := hinj _ _ h
-  have h2 : Nat.toDigits 10 a = Nat.toDigits 10 b := by
-    have ha : (toString a) = String.ofList (Nat.toDigits 10 a) := Nat.repr_eq_ofList_toDigits
-    have hb : (toString b) = String.ofList (Nat.toDigits 10 b) := Nat.repr_eq_ofList_toDigits
-    rw [ha, hb] at h1
-    simpa using h1
-  have := congrArg (fun l => Nat.ofDigitChars 10 l 0) h2
-  simpa [Nat.ofDigitChars_ten_toDigits] using this
 
 theorem freeName_none (taken : List Str) (base : Str) (fuel k : Nat) (h : freeName taken base fuel k = none) :
     ∀ i, i < fuel → base ++ itoa (k + i) ∈ taken := by
